@@ -82,10 +82,24 @@ def observe(mv):
     return [(int(k), int(v)) for k, v in zip(mv.keys(), mv.values())]
 
 
+import operator as _op
+INFIX = {'gp': _op.mul, 'op': _op.xor, 'ip': _op.or_, 'rp': _op.and_, 'sw': _op.rshift, 'proj': _op.matmul, 'add': _op.add,
+         'sub': _op.sub, 'div': _op.truediv, 'neg': _op.neg, 'reverse': _op.invert}
+_form = [0]
+
+
 def call_impl(alg, opname, *mvs):
-    """-> ('ok', items) | ('err', exception)"""
+    """-> ('ok', items) | ('err', exception).  The three public forms of an operator are used in turn:
+    alg.op(x, y), the method x.op(y) and, where kingdon defines one, the infix / prefix operator."""
+    _form[0] += 1
     try:
-        r = getattr(alg, opname)(*mvs)
+        form = _form[0] % 3
+        if form == 1 and hasattr(mvs[0], opname):
+            r = getattr(mvs[0], opname)(*mvs[1:])
+        elif form == 2 and opname in INFIX:
+            r = INFIX[opname](*mvs)
+        else:
+            r = getattr(alg, opname)(*mvs)
         return 'ok', observe(r)
     except Exception as e:  # noqa
         return 'err', e
